@@ -16,7 +16,7 @@ from . import rules_cmp
 from .cfg import eval3, implied_atoms
 
 
-def ordered_paths(f, target, limit=6000, max_visits=2):
+def ordered_paths(f, target, limit=6000, max_visits=2, revisit=False):
     """Paths from entry to the element `target` as sequences of ('e', node) / ('c', core, truth)."""
     g = f.cfg
     pos = g.position(target)
@@ -33,8 +33,9 @@ def ordered_paths(f, target, limit=6000, max_visits=2):
         B = g.blocks[b]
         if b == tb:
             out.append(seq + [("e", e) for e in B.elems[:ti + 1]])
-            # a loop may pass through the target block again; paths continuing past the target are not needed
-            return
+            # a loop may pass through the target block again; by default paths continuing past the target are not needed
+            if not revisit:
+                return
         seq = seq + [("e", e) for e in B.elems]
         if B.abort:
             return
